@@ -101,6 +101,43 @@ Section Redraws.
     let '(s, st1) := gen st bsize in redraws budget h s st1.
 End Redraws.
 
+(* ------------------------------------------------------------------ Part 3 (round 4): the same sampler object RECONFIGURED between calls
+   Nothing in base.py binds a sampler to one search space or freezes its public attributes: `sample(search_space, ...)` reads
+   `self.batch_size` and `self.max_deduplication_passes` at the moment of the call (base.py:92-104) and `search_space.param_grid`
+   is the grid of the space passed to THAT call.  A step of the life of one sampler object is therefore either
+     SCall g bsize budget h : a sample() on the space whose grids are g, with the batch size / pass budget assigned at that
+                             moment and the history h, or
+     SFailed f              : a call that raised (history shorter than the batch, malformed history, ...) after moving the
+                             internal state in an arbitrary way f (no batch is returned).
+   What precedes the last step may now depend on the space in force as well (`raw_of g`, `idx_of g`). *)
+Section Reconfigured.
+  Variable ltb : Z -> Z -> bool.
+  Variable absdiff : Z -> Z -> Z.
+  Variables St Hist : Type.
+  Variable points_of : Hist -> list point.
+  Variable raw_of : list (list Z) -> cls -> St -> Hist -> nat -> list (list Z) * St.
+  Variable idx_of : list (list Z) -> St -> Hist -> nat -> list (list nat) * St.
+
+  Inductive sstep :=
+  | SCall (g : list (list Z)) (bsize budget : nat) (h : Hist)
+  | SFailed (f : St -> St).
+
+  (* log of what the caller received: (grids in force, batch size in force, returned batch) per successful call *)
+  Fixpoint run_ssteps (c : cls) (steps : list sstep) (st : St) : list (list (list Z) * nat * list point) :=
+    match steps with
+    | [] => []
+    | SCall g bsize budget h :: rest =>
+        let r := sampler_sample ltb absdiff g St Hist points_of (raw_of g) (idx_of g) c bsize budget h st in
+        (g, bsize, output St r) :: run_ssteps c rest (snd (fst r))
+    | SFailed f :: rest => run_ssteps c rest (f st)
+    end.
+
+  Definition scalls_of (steps : list sstep) : nat :=
+    length (filter (fun s => match s with SCall _ _ _ _ => true | SFailed _ => false end) steps).
+End Reconfigured.
+Arguments SCall {St Hist} g bsize budget h.
+Arguments SFailed {St Hist} f.
+
 (* ------------------------------------------------------------------ the precision grid over exact rationals
    search_space.py:74-81  np.arange(lower, upper + 0.0000001, precision): ceil((stop - start)/step) elements start + i*step *)
 Local Open Scope Q_scope.
